@@ -453,6 +453,23 @@ def KState.registerNglob (s : KState) (step : Key) (pattern : String) (found : L
   if found.any (·.startsWith (stepupDir ++ "/")) then graphErr "glob under .stepup"
   pure <| s.modify step fun n => { n with nglobs := n.nglobs ++ [(pattern, found)] }
 
+/-- The body of `DirectorHandler.declare_static`: trees, then files, then patterns, all in one
+transaction (an error anywhere rejects the whole request). -/
+def KState.declareStaticRequest (s : KState) (cfg : KConfig) (creator : Key) (trees files : List String)
+    (patterns : List (String × List String)) : M (KState × List String) := do
+  let mut st := s
+  let mut toCheck : List String := []
+  for t in trees do
+    let (s', chk) ← st.registerStaticTree cfg creator t
+    st := s'
+    toCheck := toCheck ++ chk
+  let (s', chk) ← st.declareStaticFiles cfg creator files
+  st := s'
+  toCheck := toCheck ++ chk
+  for (p, ms) in patterns do
+    st ← st.registerNglob creator p ms
+  pure (st, toCheck)
+
 /-! ## Hash updates -/
 
 def lookupTransition (c : Cause) (st : FileState) (known : Bool) : Option (FileState × Option Action) :=
@@ -540,6 +557,12 @@ def KState.hasUnavailableDynamicInput (s : KState) (step : Key) : Bool :=
      | some n => n.key.kind = .file && n.fstate ≠ .confirmed && n.fstate ≠ .built
      | none => false)
 
+/-- The decision of `Step.mark_completed` for an unsuccessful run that asks for a deferral, from
+the defer count *before* the increment: PENDING while the incremented count stays within the
+cap, FAILED afterwards. -/
+def deferOutcome (cap deferCount : Nat) : StepState :=
+  if deferCount + 1 ≤ cap then .pending else .failed
+
 /-- `Step.mark_completed(new_hash, wants_defer)`; returns `interrupted_defer`. -/
 def KState.markCompleted (s : KState) (cfg : KConfig) (step : Key) (newHash : Option Nat) (wantsDefer : Bool) :
     M (KState × Bool) := do
@@ -551,9 +574,9 @@ def KState.markCompleted (s : KState) (cfg : KConfig) (step : Key) (newHash : Op
       if f.fstate = .built then st ← st.setFileState f.key .outdated
     let mut interrupted := false
     if wantsDefer then
+      let before := ((st.find? step).map (·.deferCount)).getD 0
       st := st.modify step fun n => { n with deferCount := n.deferCount + 1 }
-      let dc := ((st.find? step).map (·.deferCount)).getD 0
-      if dc ≤ cfg.deferCap then
+      if deferOutcome cfg.deferCap before = .pending then
         st ← st.setStepState step .pending (st.hasUnavailableDynamicInput step)
       else
         st ← st.setStepState step .failed
